@@ -272,14 +272,27 @@ def handle (j : J) : J :=
     | some env, some t, some ap =>
       let jv := toJson env t
       let js := encodeIntKeys jv
-      .obj [("json", jvToJ jv),
+      let base : List (String × J) :=
+           [("json", jvToJ jv),
             ("rt", resToJ (fromJson env ap jv)),
             ("json_str", jsToJ js),
             ("rt_str", resToJ (fromJsonStr (Text := JS) some env ap (toJsonStr id env t))),
             ("encodable", .bool (Encodable false t)),
             ("encodable_str", .bool (Encodable true t)),
             ("conforms", .bool (Conforms env t))]
+      match j.getBool? "hide_frozen", j.getBool? "hide_default_values" with
+      | some hf, some hd =>
+        let jo := toJsonO ⟨hf, hd⟩ env t
+        J.obj (base ++ [("opts", J.obj [("json", jvToJ jo), ("rt", resToJ (fromJson env ap jo))])])
+      | _, _ => J.obj base
     | _, _, _ => bad "codec"
+  | some "codec_opts" =>
+    match (j.get? "env").bind envOfJ, (j.get? "value").bind treeOfJ, j.getBool? "ap",
+          j.getBool? "hide_frozen", j.getBool? "hide_default_values" with
+    | some env, some t, some ap, some hf, some hd =>
+      let jv := toJsonO ⟨hf, hd⟩ env t
+      .obj [("json", jvToJ jv), ("rt", resToJ (fromJson env ap jv))]
+    | _, _, _, _, _ => bad "codec_opts"
   | some "load" =>
     match (j.get? "env").bind envOfJ, (j.get? "json").bind jvOfJ, j.getBool? "ap" with
     | some env, some jv, some ap => .obj [("rt", resToJ (fromJson env ap jv))]
